@@ -10,8 +10,9 @@ import TinsModel.Basic.Seq32
     Every theorem holds for every such function.
   * `streams_` (`std::map<key_type, IPv4Stream>`) is an association list with unique keys; the class only uses
     `operator[]`, `erase(key)`, `erase(range of one (id, src, dst))`, `clear()`, so the order is not observable.
-  * `PDU::operator=` copies the inner PDU only when the source has one (src/pdu.cpp `copy_inner_pdu`); this is why the
-    "corrupt" path of `process` leaves the current payload under the first fragment's header.
+  * `PDU::operator=` makes the target's inner PDU a clone of the source's, or none when the source has none
+    (src/pdu.cpp after the fix of KF-C12-1); this is why the "corrupt" path of `process` leaves the first
+    fragment's header with no payload.
 -/
 namespace Tins.Reasm
 
@@ -165,8 +166,10 @@ def process (parse : UpperParse) (r : Streams) (p : Pkt) : Streams × Pkt × Out
       if isComplete s' then
         match allocBuf s' with
         | none =>
-          -- "The packet is corrupt": `*ip = first_fragment()` keeps the current inner PDU, stream erased
-          (alErase r1 key, { p with hdr := s'.first }, .fragmented)
+          -- "The packet is corrupt": `*ip = first_fragment()` — the stored first fragment has no inner PDU
+          -- (it was released before the copy), and `PDU::operator=` now drops the target's inner PDU in that
+          -- case (fix of KF-C12-1) — stream erased
+          (alErase r1 key, { p with hdr := s'.first, inner := .none }, .fragmented)
         | some buf =>
           match parse s'.first.proto buf with
           | none => (alErase r1 key, p, .throwMalformed)
